@@ -1,10 +1,10 @@
-\* M: every table of up to 5 specs over 1-bit units (sizes 1 and 2 units), both fetch orders, real leaf threshold 5
+\* M: leaf threshold lowered to 2 so that 3 specs already recurse; sizes 1..3 units of 1 bit, both fetch orders
 CONSTANTS
   U = 1
-  Sizes = {1, 2}
+  Sizes = {1, 2, 3}
   Endians <- EBoth
-  LeafMax = 5
-  MaxSpecs = 5
+  LeafMax = 2
+  MaxSpecs = 3
   HookVals = {TRUE}
   MinW = 1
   CallExtra = 0
